@@ -242,6 +242,36 @@ pub fn run(run: &Run) {
             }
         }
     });
+    // all ordered pairs of characters with a lowercase mapping through the operations that case-map (light: 4 calls per string)
+    run.par("cased_pairs_light", true, |tid, n, l| {
+        use precis_core::profile::Rules;
+        let ca = &crate::gens::pools().cased_all;
+        for (i, a) in ca.iter().enumerate() {
+            if i % n != tid {
+                continue;
+            }
+            if run.stopped() {
+                return;
+            }
+            for b in ca.iter() {
+                let s = format!("{a}{b}a");
+                l.cases += 1;
+                let r = guard(|| {
+                    let mut sink = 0usize;
+                    touch(UsernameCaseMapped::new().case_mapping_rule(s.as_str()), &mut sink);
+                    touch(UsernameCaseMapped::new().enforce(s.as_str()), &mut sink);
+                    touch(Nickname::new().case_mapping_rule(s.as_str()), &mut sink);
+                    touchb(Nickname::new().compare(s.as_str(), "x"), &mut sink);
+                    std::hint::black_box(sink);
+                });
+                l.evals_n(4);
+                if let Err(p) = r {
+                    run.violate(Violation::new(json!({"op": "all_ops", "s": jstr(&s), "t": jstr("x")}), "every public operation returns Ok or a typed error", format!("panic: {p}")));
+                    return;
+                }
+            }
+        }
+    });
     run.prop("random_strings", run.pick(1_000_000, 30_000_000), || (gens::gstring(), gens::gstring()), |(s, t), l| check_string(s, t, l));
     run.par("numeric_boundaries", true, |tid, _n, l| {
         if tid != 0 {
